@@ -26,7 +26,7 @@ def BOUNDS(tier):
             "pre-emptions (switches at blocking points are free); 1..2 workers quick, 1..3 thorough." % ((2, 2) if tier == "quick" else (3, 2)))
 
 
-OPS = ("add", "add_follow", "resize0", "resize1", "resize2", "resize3", "shutdown_cancel", "shutdown_keep")
+OPS = ("add", "add_follow", "add_gated", "release", "resize0", "resize1", "resize2", "resize3", "shutdown_cancel", "shutdown_keep")
 
 
 def jobs(tier):
@@ -35,15 +35,23 @@ def jobs(tier):
     for w in ((1, 2) if tier == "quick" else (1, 2, 3)):
         for first in OPS:
             js.append(dict(name="W%d:%s" % (w, first), workers=w, first=first, nops=nops, P=P))
+    # all workers busy with long-running tasks while the pool is resized / shut down twice
+    for w in ((2,) if tier == "quick" else (2, 3)):
+        for third in ("resize0", "resize1", "resize2", "shutdown_cancel", "shutdown_keep", "add"):
+            js.append(dict(name="BUSY:W%d:%s" % (w, third), workers=w, prefix=["add_gated"] * w + [third], nops=1, P=1))
     return js
 
 
 def make_inputs(job):
     eng = E()
-    n = 1 + eng.choose(job["nops"], "n")
-    prog = [job["first"]]
-    for i in range(1, n):
-        prog.append(OPS[eng.choose(len(OPS), "op%d" % i)])
+    if "prefix" in job:
+        prog = list(job["prefix"])
+        prog.append(OPS[eng.choose(len(OPS), "op_last")])
+    else:
+        n = 1 + eng.choose(job["nops"], "n")
+        prog = [job["first"]]
+        for i in range(1, n):
+            prog.append(OPS[eng.choose(len(OPS), "op%d" % i)])
     if not any(o.startswith("add") for o in prog):
         raise PathAbort()
     return dict(workers=job["workers"], prog=prog, P=job["P"])
@@ -80,15 +88,19 @@ def scenario(ns, inp):
         d.queue = RecDeque(pops)
 
         class Task:
-            def __init__(self, follow):
+            def __init__(self, follow, gated=False):
                 self.tid = state["next"]
                 state["next"] += 1
                 self.follow = follow
+                self.gated = gated
                 ledger[self.tid] = dict(service=0, cancel=0, before_shutdown=not state["shutdown_started"])
                 order.append(self.tid)
 
             def service(self):
                 ledger[self.tid]["service"] += 1
+                if self.gated:
+                    # a long-running task: keeps its worker busy until the controller releases it
+                    sched.block_until(lambda: state.get("released", False), "task.gated")
                 if self.follow:
                     d.add_task(Task(False))
 
@@ -102,6 +114,10 @@ def scenario(ns, inp):
                     d.add_task(Task(False))
                 elif op == "add_follow":
                     d.add_task(Task(True))
+                elif op == "add_gated":
+                    d.add_task(Task(False, gated=True))
+                elif op == "release":
+                    state["released"] = True
                 elif op.startswith("resize"):
                     c = int(op[-1])
                     state["requested"] = c
@@ -114,6 +130,10 @@ def scenario(ns, inp):
 
         s.spawn(controller, "ctl")
         s.run()
+        if not state.get("released"):
+            # end of the history: long-running tasks finish
+            state["released"] = True
+            s.run()
         live_workers = [n for n in s.live() if n != "ctl"]
         obs = dict(ledger=sorted((k, v["service"], v["cancel"], v["before_shutdown"]) for k, v in ledger.items()), order=order, pops=pops,
                    queued=[t.tid for t in d.queue], live=sorted(live_workers), ctl_done="ctl" not in s.live(),
